@@ -15,8 +15,8 @@ import traceback
 from collections import Counter
 
 VERIF_DIR = os.path.dirname(os.path.dirname(os.path.abspath(__file__)))
-REPLAY_DIR = os.path.join(VERIF_DIR, 'replays')
-EVIDENCE_DIR = os.path.join(VERIF_DIR, 'evidence')
+REPLAY_DIR = os.environ.get('VERIF_REPLAY_DIR') or os.path.join(VERIF_DIR, 'replays')
+EVIDENCE_DIR = os.environ.get('VERIF_EVIDENCE_DIR') or os.path.join(VERIF_DIR, 'evidence')
 KNOWN_FINDINGS = os.path.join(VERIF_DIR, 'known_findings.json')
 
 MASK64 = (1 << 64) - 1
